@@ -237,6 +237,9 @@ def prop_spec(draw, name, text_classes=None, tuples=True, attr_text=None, falsy=
     }
     if dtype_members and dtype in CANON_DTYPES and draw(st.booleans()):
         spec["dtype_member"] = True
+    if dtype_members and dtype in ("time", "datetime") and values and draw(st.booleans()):
+        # the values are handed over as timezone aware Python objects (stored without the offset)
+        spec["tz_aware"] = draw(st.sampled_from([0, 60, -330]))
     return spec
 
 
